@@ -73,6 +73,7 @@ type Config struct {
 	AuthDSE                           bool        // ... the way a DSE node does it (mechanism name, challenge, credentials)
 	AuthUser, AuthPass                string      // if set, the backend nodes demand password authentication and the proxy is configured with these credentials
 	MaxStreams                        int16       // tuning knob: stream ids per backend connection (0 = the shipped 2048)
+	BigRowsPerMille                   int         // share of ROWS results that carry padding rows (3-70 KB) behind the token row
 	MaxMessages                       int         // tuning knob: length of a connection's write queue (0 = the shipped 1024)
 	TweakProxy                        func(*proxy.Config)
 }
